@@ -14,6 +14,9 @@ A case:
      ["mloadstore", src, dst]          MLOAD src ; MSTORE dst
      ["call", kind, aloc, asize, [basic ops], roff, rsize, oloc, osize, end]
                                        kind: STATICCALL | CALL | DELEGATECALL | CALLCODE; end: RETURN | REVERT
+  fork     : optional {"at": k, "alt": [basic ops]}: after ops[:k] a JUMPI on CALLVALUE (symbolic, unrelated to any byte
+             sequence) forks the path; one path continues with ops[k:], the other runs alt.  Each path's memory must be
+             what its own instruction sequence gives (the fork copies the memory).
 The program of the executing account (whose bytes CODECOPY reads) is assembled from the ops.
 """
 import hashlib
@@ -109,7 +112,10 @@ def build(case):
     items = []
     callee_code = {}
     ncall = 0
+    fork = case.get("fork")
     for i, op in enumerate(case["ops"]):
+        if fork and fork["at"] == i:
+            items += ["CALLVALUE", ("ref", "alt"), "JUMPI"]
         if op[0] == "call":
             _, kind, aloc, asize, body, roff, rsize, oloc, osize, end = op
             addr = CALLEE0 + ncall
@@ -127,9 +133,25 @@ def build(case):
             items += args + [_push(addr), _push(100000), kind, "POP"]
         else:
             items += basic_items(op)
+    if fork and fork["at"] >= len(case["ops"]):
+        items += ["CALLVALUE", ("ref", "alt"), "JUMPI"]
     items += ["MSIZE", "STOP"]
+    if fork:
+        items.append(("label", "alt"))
+        for b in fork["alt"]:
+            items += basic_items(b)
+        items += ["MSIZE", "STOP"]
     accounts[THIS] = asm.assemble(items)
     return accounts, callee_code
+
+
+def variants(case):
+    """the instruction sequences of the paths: [(index in case["ops"] or None, op)]"""
+    main = list(enumerate(case["ops"]))
+    fork = case.get("fork")
+    if not fork:
+        return [main]
+    return [main, main[:fork["at"]] + [(None, b) for b in fork["alt"]]]
 
 
 # ----------------------------------------------------------------- independent spec (EVM semantics, flat lists)
@@ -161,12 +183,12 @@ def spec_basic(op, mem, rd, cd, codeb, case):
     raise ValueError(k)
 
 
-def spec_run(case, accounts, callee_code):
+def spec_run(case, accounts, callee_code, ops=None):
     """-> ("ok", mem, rd) | ("halt",)"""
     cd = calldata_codes(case)
     mem, rd = [], []
     this_code = list(accounts[THIS])
-    for i, op in enumerate(case["ops"]):
+    for i, op in (ops if ops is not None else enumerate(case["ops"])):
         if op[0] == "call":
             _, kind, aloc, asize, body, roff, rsize, oloc, osize, end = op
             cmem, crd, halted = [], [], False
@@ -223,8 +245,9 @@ def enc_basic(op, cd, case):
     raise ValueError(k)
 
 
-def enc_case(case, accounts, callee_code):
+def enc_case(case, accounts, callee_code, ops=None):
     cd = calldata_codes(case)
+    ops = list(ops) if ops is not None else list(enumerate(case["ops"]))
     segs = [s for s in case["calldata"] if (len(s[1]) if s[0] == "c" else s[2]) > 0]
     out = [len(segs)]
     for seg in segs:
@@ -233,8 +256,8 @@ def enc_case(case, accounts, callee_code):
         else:
             out += enc_leaf(True, [code(seg[1], j) for j in range(seg[2])], 0, seg[2])
     out += enc_bytes_bvec(accounts[THIS])
-    out.append(len(case["ops"]))
-    for i, op in enumerate(case["ops"]):
+    out.append(len(ops))
+    for i, op in ops:
         if op[0] == "call":
             _, kind, aloc, asize, body, roff, rsize, oloc, osize, end = op
             out += [6] + enc_bytes_bvec(callee_code[i]) + [aloc, asize, len(body)]
@@ -271,7 +294,8 @@ def dec_model(res):
 # ----------------------------------------------------------------- implementation side
 
 def impl_run(case):
-    """-> ("ok", len, layout, flat items, rd items, msize) | ("halt", kind) | ("exc", text)"""
+    """-> one result per reported path (a list when the case forks):
+    ("ok", len, layout, flat items, rd items, msize) | ("halt", kind) | ("exc", text)"""
     import z3
 
     from halmos.bytevec import ByteVec, ConcreteChunk, SymbolicChunk
@@ -294,11 +318,9 @@ def impl_run(case):
         return ("exc", f"{type(e).__name__}: {e}"[:200])
     if flags["crashed"]:
         return ("exc", "SEVM.run raised " + flags["crashed"][:200])
-    if len(paths) != 1:
-        return ("exc", f"{len(paths)} paths for a straight-line program: {[p.kind for p in paths]}")
-    p = paths[0]
-    if p.kind != "ok":
-        return ("halt", p.kind)
+    want_paths = 2 if case.get("fork") else 1
+    if len(paths) != want_paths:
+        return ("exc", f"{len(paths)} paths where {want_paths} expected: {[p.kind for p in paths]}")
 
     def evalbv(e, vi):
         subs = [(s, z3.BitVecVal(int.from_bytes(sym_value(k, n, vi), "big"), 8 * n)) for k, (s, n) in syms.items()]
@@ -338,17 +360,23 @@ def impl_run(case):
                 out += [key, -1, 9, 0, 0]
         return out, flat
 
-    try:
-        ex = p.ex
-        mem = ex.st.memory
-        lay, flat = layout(mem)
-        rd = ex.returndata()
-        rd_items = layout(rd)[1] if rd is not None else []
-        top = ex.st.stack[-1] if ex.st.stack else None
-        msize = top.value if top is not None and getattr(top, "is_concrete", False) else (int(str(top)) if top is not None else None)
-        return ("ok", len(mem), lay, flat, rd_items, msize)
-    except Exception as e:  # noqa: BLE001
-        return ("exc", f"observation failed: {type(e).__name__}: {e}"[:200])
+    def observe(p):
+        if p.kind != "ok":
+            return ("halt", p.kind)
+        try:
+            ex = p.ex
+            mem = ex.st.memory
+            lay, flat = layout(mem)
+            rd = ex.returndata()
+            rd_items = layout(rd)[1] if rd is not None else []
+            top = ex.st.stack[-1] if ex.st.stack else None
+            msize = top.value if top is not None and getattr(top, "is_concrete", False) else (int(str(top)) if top is not None else None)
+            return ("ok", len(mem), lay, flat, rd_items, msize)
+        except Exception as e:  # noqa: BLE001
+            return ("exc", f"observation failed: {type(e).__name__}: {e}"[:200])
+
+    res = [observe(p) for p in paths]
+    return res if case.get("fork") else res[0]
 
 
 def same_items(ref_codes, items):
@@ -363,7 +391,37 @@ def same_items(ref_codes, items):
     return True
 
 
+def match_paths(results, expected, cmp):
+    """results: what the reported paths gave; expected: one per instruction sequence; some assignment of paths to
+    sequences must agree -> None, else the differences of the identity assignment"""
+    if not isinstance(results, list):
+        return cmp(results, expected[0])
+    if len(results) != len(expected):
+        return {"observable": "paths", "implementation": len(results), "expected": len(expected)}
+    import itertools
+    first = None
+    for perm in itertools.permutations(range(len(expected))):
+        ds = [cmp(results[i], expected[j]) for i, j in enumerate(perm)]
+        if all(d is None for d in ds):
+            return None
+        if first is None:
+            first = next(dict(d, path=i) for i, d in enumerate(ds) if d is not None)
+    return first
+
+
 def compare_spec(case, impl, spec):
+    if isinstance(impl, tuple) and impl[0] == "exc":
+        return {"observable": "exception", "implementation": impl[1]}
+    return match_paths(impl, spec, lambda a, b: compare_spec1(case, a, b))
+
+
+def compare_model(case, impl, model):
+    if isinstance(impl, tuple) and impl[0] == "exc":
+        return {"observable": "exception", "implementation": impl[1]}
+    return match_paths(impl, model, lambda a, b: compare_model1(case, a, b))
+
+
+def compare_spec1(case, impl, spec):
     if impl[0] == "exc":
         return {"observable": "exception", "implementation": impl[1]}
     if spec[0] == "halt":
@@ -388,7 +446,48 @@ def compare_spec(case, impl, spec):
     return None
 
 
-def compare_model(case, impl, model):
+def leaves_of(lay, flat):
+    """recursive layout + flat content -> [(path of keys, len, (kind, start, data_len), content)] per leaf chunk"""
+    out = []
+    pos = 0
+
+    def walk(i, prefix):
+        nonlocal pos
+        key, ln, kind, a, b = lay[i:i + 5]
+        i += 5
+        if kind == 2:
+            out.append((prefix + (key,), ln, ("nest", a), None))
+            for _ in range(a):
+                i = walk(i, prefix + (key,))
+        else:
+            out.append((prefix + (key,), ln, (kind, a, b), flat[pos:pos + ln]))
+            pos += ln
+        return i
+
+    i = 0
+    while i < len(lay):
+        i = walk(i, ())
+    return out
+
+
+def same_layout(impl_lay, impl_flat, model_lay, model_flat):
+    """chunk boundaries and nesting must agree; kind / window must agree too, except that a chunk the model holds as
+    symbolic whose bytes are all concrete may be a ConcreteChunk in the implementation: z3 folds Extract over the
+    constant part of a mixed word (MLOAD of such a word gives an int), which the byte-level model does not track"""
+    a, m = leaves_of(impl_lay, impl_flat), leaves_of(model_lay, model_flat)
+    if len(a) != len(m):
+        return False
+    for (pa, la, ka, _), (pm, lm, km, cm) in zip(a, m):
+        if pa != pm or la != lm:
+            return False
+        if ka != km:
+            if km[0] == 1 and ka[0] == 0 and cm is not None and all(c < SYM_BASE for c in cm):
+                continue
+            return False
+    return True
+
+
+def compare_model1(case, impl, model):
     if model[0] == "exc" or impl[0] == "exc":
         return {"observable": "exception", "implementation": str(impl)[:200], "model": str(model)[:200]}
     if (impl[0] == "halt") != (model[0] == "halt"):
@@ -399,7 +498,7 @@ def compare_model(case, impl, model):
     _, mln, mlay, mflat, mrd, mmsize = model
     if ln != mln:
         return {"observable": "memory-length", "implementation": ln, "model": mln}
-    if lay != mlay:
+    if lay != mlay and not same_layout(lay, flat, mlay, mflat):
         return {"observable": "layout", "implementation": lay, "model": mlay}
     if not same_items(mflat, flat):
         return {"observable": "memory-content", "implementation": str(flat)[:300], "model": str(mflat)[:300]}
@@ -484,6 +583,13 @@ def gen_case(r, tag="mem"):
             op = gen_basic(r, False, cdlen, rdlen, memlen)
         case["ops"].append(op)
         memlen = max(memlen, _end(op))
+    # a path fork (JUMPI on the symbolic CALLVALUE), often while the memory is still empty
+    if r.random() < 0.35:
+        first_ret = next((i for i, o in enumerate(case["ops"]) if o[0] == "retcopy"), len(case["ops"]))   # only RETURNDATACOPY can halt the frame: fork before it
+        k = r.choice([0, 0, r.randint(0, first_ret)])
+        alt = [gen_basic(r, False, cdlen, 0, 0) for _ in range(r.randint(1, 3))]
+        alt = [b for b in alt if b[0] != "retcopy"] or [["mstore8", 3, ["c", 0x7F]]]
+        case["fork"] = {"at": k, "alt": alt}
     return case
 
 
@@ -532,12 +638,31 @@ CORPUS = [
 ]
 
 
+CORPUS += [
+    # a fork while the memory is still empty, then writes on both paths
+    {"tag": "mem-corpus", "calldata": [["s", 0, 32]], "ext": {"code": [0xE0 + i for i in range(12)]},
+     "ops": [["mstore8", 3, ["c", 0x11]], ["copy", "cd", 8, 0, 4]],
+     "fork": {"at": 0, "alt": [["mstore8", 1, ["c", 0x22]], ["copy", "code", 40, 0, 3]]}},
+    # a fork after a call returned into an untouched memory (empty output area), and one in the middle
+    {"tag": "mem-corpus", "calldata": [["c", [7]], ["s", 0, 40]], "ext": {"code": [0xE0 + i for i in range(12)]},
+     "ops": [["call", "STATICCALL", 0, 0, [["mstore8", 0, ["c", 5]]], 0, 1, 0, 0, "RETURN"], ["retcopy", 2, 0, 1], ["mstore", 31, ["cd", 2]]],
+     "fork": {"at": 1, "alt": [["mcopy", 5, 0, 3], ["mstore8", 0, ["c", 9]]]}},
+    {"tag": "mem-corpus", "calldata": [["s", 0, 33]], "ext": {"code": [0xE0 + i for i in range(12)]},
+     "ops": [["copy", "cd", 0, 0, 33], ["mcopy", 1, 0, 32], ["mstore8", 40, ["c", 1]]],
+     "fork": {"at": 2, "alt": [["mstore", 16, ["c", [0xCC] * 32]]]}},
+]
+
+
 def gen_cases(r, n):
     return list(CORPUS) + [gen_case(r) for _ in range(n)]
 
 
 def classify(case):
     kinds = set()
+    if case.get("fork"):
+        kinds.add("fork")
+        if case["fork"]["at"] == 0:
+            kinds.add("fork-on-empty-memory")
     for op in case["ops"]:
         kinds.add(op[0] if op[0] != "copy" else "copy-" + op[1])
         if op[0] == "call":
